@@ -275,6 +275,7 @@ func (dlv *Delivery) Normalize(normalizers tax.Normalizers) {
 	tax.Normalize(normalizers, dlv.Despatcher)
 	tax.Normalize(normalizers, dlv.Receiver)
 	tax.Normalize(normalizers, dlv.Courier)
+	tax.Normalize(normalizers, dlv.Ordering)
 	tax.Normalize(normalizers, dlv.Preceding)
 	tax.Normalize(normalizers, dlv.Lines)
 	tax.Normalize(normalizers, dlv.Discounts)
